@@ -6,7 +6,7 @@ use crate::{
     formatters::{
         assignment::{hang_equal_token, hang_punctuated_list},
         expression::{format_expression, hang_expression},
-        general::{format_punctuated, format_punctuated_multiline},
+        general::{format_moved_comment, format_punctuated, format_punctuated_multiline},
         stmt::format_stmt,
         trivia::{
             strip_leading_trivia, strip_trailing_trivia, strip_trivia, FormatTriviaType,
@@ -577,7 +577,10 @@ pub fn format_block(ctx: &Context, block: &Block, shape: Shape) -> Block {
                                 .filter(|token| trivia_util::trivia_is_comment(token))
                                 .flat_map(|x| {
                                     // Prepend a single space beforehand
-                                    vec![Token::new(TokenType::spaces(1)), x.to_owned()]
+                                    vec![
+                                        Token::new(TokenType::spaces(1)),
+                                        format_moved_comment(&ctx, x, shape),
+                                    ]
                                 }),
                         )
                         .chain(std::iter::once(create_newline_trivia(&ctx)))
@@ -639,7 +642,10 @@ pub fn format_block(ctx: &Context, block: &Block, shape: Shape) -> Block {
                                 .filter(|token| trivia_util::trivia_is_comment(token))
                                 .flat_map(|x| {
                                     // Prepend a single space beforehand
-                                    vec![Token::new(TokenType::spaces(1)), x.to_owned()]
+                                    vec![
+                                        Token::new(TokenType::spaces(1)),
+                                        format_moved_comment(&ctx, x, shape),
+                                    ]
                                 }),
                         )
                         .chain(std::iter::once(create_newline_trivia(&ctx)))
